@@ -84,10 +84,10 @@ def main():
             meta["note_flags"] = "agent mentions force-32bits"
         env = {"CARGO_TARGET_DIR": demo_copy + "/target"}
         runline = os.environ.get("SEED_DEMO_CMD") or "cargo run --offline -q 2>&1 | tail -5"
-        rc1, o1 = sh(runline, cwd=demo_copy, env=env)
+        rc1, o1 = sh("timeout 900 sh -c '%s'" % runline.replace("'", "'\\''"), cwd=demo_copy, env=env)
         meta["demo_with_patch"] = {"rc": rc1, "tail": o1[-400:]}
         sh("git checkout -- .", cwd=wt)
-        rc2, o2 = sh(runline, cwd=demo_copy, env=env)
+        rc2, o2 = sh("timeout 900 sh -c '%s'" % runline.replace("'", "'\\''"), cwd=demo_copy, env=env)
         meta["demo_without_patch"] = {"rc": rc2, "tail": o2[-400:]}
         meta["demo_discriminates"] = (("FAIL" in o1 or rc1 != 0) and not ("FAIL" in o2 or rc2 != 0))
         shutil.rmtree(demo_copy, ignore_errors=True)
